@@ -66,7 +66,7 @@ func runC11(c *an.Ctx) {
 	r026(c, "R11.4")
 	c.Min("R11.4", 3)
 	r115(c)
-	c.Min("R11.5", 3)
+	c.Min("R11.5", 2)
 	c.Min("R11.1", 40)
 	c.Min("R11.2", 60)
 	c.Min("R11.3", 4)
